@@ -282,6 +282,11 @@ func (this *partition) proposeAddNode(ctx context.Context, nodeId uint64) error 
 		return err
 	}
 
+	this.raftMu.RLock()
+	defer this.raftMu.RUnlock()
+	if this.raft == nil {
+		return RaftNotLoadedOnNodeErr
+	}
 	return this.raft.ProposeJoin(nodeId, "")
 }
 
@@ -298,6 +303,11 @@ func (this *partition) proposeRemoveNode(ctx context.Context, nodeId uint64) err
 		return err
 	}
 
+	this.raftMu.RLock()
+	defer this.raftMu.RUnlock()
+	if this.raft == nil {
+		return RaftNotLoadedOnNodeErr
+	}
 	return this.raft.ProposeLeave(nodeId)
 }
 
